@@ -734,6 +734,10 @@ def undefine_unused_variables(source: str, preserve: Collection[str] = frozenset
             yield name, ast.Name(id="_")
             yielded.add(name)
 
+    # `_` is an ordinary variable for a program that reads it (`_ = gettext.gettext; _("text")`)
+    if any(core.walk(root, ast.Name(id="_", ctx=(ast.Load, ast.Del)))):
+        return
+
     for node in core.walk(
         root,
         (
